@@ -2,7 +2,7 @@
 WHATWG definitions: "has an element in scope", "generate implied end tags", "pop until", closing a p element, "reset the
 insertion mode appropriately", "reconstruct the active formatting elements".  Serves C02 (partially) and the no-panic part of
 C04 for these functions (the preconditions under which pop / current_node / the template-mode lookup cannot panic)."""
-from unitgen import Raw, Prelude, Item, Rewrite, Atoms, Generated
+from unitgen import Raw, Prelude, Item, Rewrite, Atoms, Generated, ExtractError
 from u_fmt import check_iterator
 
 NAME = 'u_stack'
@@ -22,6 +22,11 @@ READING = ('html_elem_named', 'elem_in', 'current_node', 'current_node_in', 'cur
            'appropriate_place_for_insertion', 'position_in_active_formatting')
 
 REWRITES = [
+    # R26 (as in U-tagsets): the tag-set predicates of tag_sets.rs are read as spec functions, the repository's macro and
+    # match text unchanged (module `ts`); `ts_X` in the contracts is `ts::X`, opaque except in the lemmas about set contents
+    Rewrite('R26-specfn', r'pub\(crate\) fn \$name\(p: crate::ExpandedName\) -> bool \{', 'verus! { pub open spec fn $name(p: ExpandedName) -> bool {'),
+    Rewrite('R26-specfn', r'(?<!pub\(crate\) )fn \$name\(p: crate::ExpandedName\) -> bool \{', 'verus! { pub open spec fn $name(p: ExpandedName) -> bool {'),
+    Rewrite('R26-specfn', r'declare_tag_set_body!\(p = \$\(\$toks\)\+\)\s*\}', 'declare_tag_set_body!(p = $($toks)+) } }'),
     Rewrite('R2-generics', r'pub struct TreeBuilder<Handle, Sink>', 'pub struct TreeBuilder'),
     Rewrite('R2-generics', r'pub\(crate\) enum FormatEntry<Handle>', 'pub enum FormatEntry'),
     Rewrite('R2-generics', r'FormatEntry<Handle>', 'FormatEntry'),
@@ -87,10 +92,53 @@ REWRITES = [
     Rewrite('R6-clone', r'\b(\w+)\.attrs\.clone\(\)', r'attrs_clone(&\1.attrs)'),
     # the local tag set `implied` = cursory_implied_end minus "p" is a model function (stack.spec.rs); declare_tag_set!
     # expansions are checked by U-tagsets
-    Rewrite('R39-localset', r'declare_tag_set!\(implied = \[cursory_implied_end\] - "p"\);', '', min_count=1),
-    Rewrite('R39-localset', r'declare_tag_set!\(foster_target = "table" "tbody" "tfoot" "thead" "tr"\);', '', min_count=1),
+    Rewrite('R39-localset', r'declare_tag_set!\(implied = [^;]*\);', '', min_count=1),
+    Rewrite('R39-localset', r'declare_tag_set!\(foster_target = [^;]*\);', '', min_count=1),
     Rewrite('R39-localset', r'use self::tag_sets::\*;', ''),
 ]
+
+
+def local_set_check(file, fn_regex, set_name, mod_name, expect, uses=(), reveals=(), nth_after=3000):
+    """rule R39 (checked form): a function-local `declare_tag_set!(NAME = ..)` is deleted from the exec body and stands
+    behind a model function with a hand-written contract.  This generator copies the macro call's own text into a module
+    `MOD` (read as a spec function through the repository's macro, rule R26) and emits a lemma - proved, not assumed -
+    that the hand-written contract expression `expect` equals it for every name: a change of the local list in /repo makes
+    the lemma fail.  Returns (module part, lemma part)."""
+    import re as _re
+
+    def find(ub):
+        src = ub.src(file)
+        m = _re.search(fn_regex, src.text)
+        if not m:
+            raise ExtractError('local tag set: anchor %s not found' % fn_regex)
+        mm = _re.search(r'declare_tag_set!\(%s =[^;]*\);' % set_name, src.text[m.end():m.end() + nth_after])
+        if not mm:
+            raise ExtractError('local tag set %s not found after %s' % (set_name, fn_regex))
+        return mm.group(0)
+
+    def gen_mod(ub):
+        call = find(ub)
+        ub.count('R39-localset-checked', 1)
+        return ('// GENERATED (rule R39, checked form): the local tag set `%s`, the macro call copied verbatim from %s\n'
+                'pub mod %s {\nuse super::{ExpandedName, LocalName, Namespace};\nuse vstd::prelude::*;\nuse super::ts::*;\n%s%s\n}' % (set_name, file, mod_name, ''.join('use super::%s::*;\n' % u for u in uses), call))
+
+    def gen_lemma(ub):
+        return ('/// GENERATED (rule R39, checked form): the contract of the model function `%s` is what the repository\'s macro call says\n'
+                'pub proof fn lemma_%s()\n    ensures forall|p: ExpandedName| #[trigger] %s::%s(p) == (%s),\n{\n%s}'
+                % (set_name, mod_name, mod_name, set_name, expect, ''.join('    reveal(%s);\n' % r for r in reveals)))
+    return Generated(gen_mod, label='R39'), Generated(gen_lemma, label='R39')
+
+
+def with_local_sets(parts, checks):
+    """module parts go right after `mod ts` (outside verus!), lemma parts before the closing Raw"""
+    k = [i for i, q in enumerate(parts) if isinstance(q, Raw) and q.text.startswith('} // mod ts')][0]
+    mods = [c[0] for c in checks]
+    lemmas = [c[1] for c in checks]
+    body = parts[:k + 1] + mods + parts[k + 1:]
+    if isinstance(body[-1], Raw) and body[-1].text.startswith('} // verus!'):
+        return body[:-1] + lemmas + body[-1:]
+    return body + lemmas
+
 
 
 NO_ISOLATION = ('in_scope', 'generate_implied_end_tags', 'pop_until_current', 'appropriate_place_for_insertion')
@@ -103,8 +151,25 @@ def tb(name, **kw):
 
 
 DERIVE = '#[derive(PartialEq, Eq, Copy, Clone, Structural)]'
+TS = 'html5ever/src/tree_builder/tag_sets.rs'
+RW_TS = (Rewrite('R26-specfn', r'pub\(crate\) fn (empty_set|default_scope|mathml_text_integration_point|svg_html_integration_point)\(', r'pub open spec fn \1('),
+         Rewrite('R26-specfn', r'empty_set\(_: ExpandedName\)', 'empty_set(p: ExpandedName)'))
+TS_SETS = ['html_default_scope', 'list_item_scope', 'button_scope', 'table_scope', 'table_body_context', 'table_row_context',
+           'td_th', 'cursory_implied_end', 'thorough_implied_end', 'heading_tag', 'special_tag']
 PARTS = [
     Atoms(),
+    Raw('macro_rules! expanded_name { ($ns:ident $local:tt) => { ExpandedName { ns: ns!($ns), local: local_name!($local) } }; }'),
+    Item(TS, 'macro', 'declare_tag_set_impl'),
+    Item(TS, 'macro', 'declare_tag_set_body'),
+    Item(TS, 'macro', 'declare_tag_set'),
+    Raw('pub mod ts {\nuse super::*;\nuse vstd::prelude::*;\nverus! {'),
+    Item(TS, 'fn', 'empty_set', mode='plain', rewrites=RW_TS, unit_rewrites=False),
+    Item(TS, 'fn', 'default_scope', mode='plain', rewrites=RW_TS, unit_rewrites=False),
+    Item(TS, 'fn', 'mathml_text_integration_point', mode='plain', rewrites=RW_TS, unit_rewrites=False),
+    Item(TS, 'fn', 'svg_html_integration_point', mode='plain', rewrites=RW_TS, unit_rewrites=False),
+    Raw('} // verus!'),
+] + [Item(TS, 'macrocall', 'declare_tag_set:' + s_, qname='declare_tag_set!(' + s_ + ')') for s_ in TS_SETS] + [
+    Raw('} // mod ts'),
     Raw('use vstd::prelude::*;\nverus! {'),
     Prelude('cells.prelude.rs'),
     Prelude('stack.prelude.rs'),
@@ -135,5 +200,14 @@ PARTS = [
     tb('insert_element', mode='assume'),
     Raw('} // verus!\nfn main() {}'),
 ]
+LOCAL_SETS = [
+    local_set_check(H, r'fn close_p_element\(', 'implied', 'tsl_implied',
+                    'p != (ExpandedName { ns: ns!(html), local: local_name!("p") }) && ts_cursory_implied_end(p)', reveals=('ts_cursory_implied_end',)),
+    local_set_check(H, r'fn appropriate_place_for_insertion\(', 'foster_target', 'tsl_foster_target',
+                    'p.ns == ns!(html) && (p.local == local_name!("table") || p.local == local_name!("tbody") || p.local == local_name!("tfoot")'
+                    ' || p.local == local_name!("thead") || p.local == local_name!("tr"))'),
+]
+PARTS = with_local_sets(PARTS, LOCAL_SETS)
+
 DROPS = ['Handle / Sink type parameters (model types: element names are an uninterpreted function of the handle, same_node is handle identity)',
          'error-message wording (rule R15)', 'doc comments']
